@@ -32,7 +32,7 @@ prop('C02',
      title='Unix timestamps and UTC date-times correspond one-to-one',
      verus=['datetime'],
      twin=['datetime'],
-     uncovered=['From<SystemTime>/Into<SystemTime> (std type opaque to both engines)',
+     uncovered=['From<SystemTime>/Into<SystemTime> (std type opaque to both engines; bounded twin only)',
                 'TimeZone::timestamp_opt/_millis_opt/_micros/_nanos (trait-default one-line delegations to from_timestamp*)',
                 'deprecated NaiveDateTime::from_timestamp*/timestamp* (delegate to the DateTime<Utc> functions)'],
      text='Verus proves DateTime::<Utc>::from_timestamp/_millis/_micros/_nanos and timestamp/_millis/_micros/_nanos_opt/_subsec_* on the real text '
@@ -89,7 +89,7 @@ prop('C05',
           'Ambiguous lists the earlier instant first with distinct offsets, and the classification is EXACT: None only when no interval produces the wall-clock time, Single when exactly one does, '
           'Ambiguous when exactly two do (the documented boundary second excepted); no file-supplied transition time can overflow the arithmetic. '
           'POSIX-rule code (Verus unit tzrule): is_leap_year, days_since_unix_epoch = day number - 719163 for every i32 year, RuleDay::transition_date for Jn / n / Mm.w.d (incl. last week) against the calendar, '
-          'unix_time, constructors, AlternateTime::new; from_timespec and both rule lookups never overflow, and the wall-clock lookup returns Ambiguous earliest first. '
+          'unix_time, constructors, AlternateTime::new; UtcDateTime::from_timespec returns exactly the civil date and time of the instant (Err exactly outside the i32 year range); both rule lookups never overflow, and the wall-clock lookup returns Ambiguous earliest first. '
           'Bounded stand-ins: Kani <= 2 transitions (same statements + validate); tz twin (15 POSIX rules, 10 synthetic TZif files through the public Local route).')
 
 prop('C06',
